@@ -335,3 +335,249 @@ Example C03_e2e_nonvacuous :
               o_info := [(1%nat, tt); (2%nat, tt)]; o_all := false |}] /\
    bs_bad (m_sim (snd r)) = false /\ m_done (snd r) = [1%nat] /\ m_ptr (snd r) = 0%nat).
 Proof. exact e2_nonvacuous. Qed.
+
+(* =====================================================================================================
+   Second end-to-end instance (supports C01, C03, C07, C08, C16): ReachTheTargetSim of
+   abmarl/examples/sim/reach_the_target.py, a plain GridWorldSimulation with its own reset / step /
+   getters.  Grid/ReachSim.v transcribes its step (loop 1: attacks, only the target is supported by the
+   SelectiveAttackActor; loop 2: moves of the runners and the target-reached handling in the same
+   iteration; loop 3: entropy for the runners), get_obs / get_reward / get_done by agent class /
+   get_all_done = OnlyAgentLeftDone as `reach_sim cf : simulation rstate (list (list Z)) unit ract`
+   (target and runners learn, barriers do not).  A runner that reaches the target leaves the grid and
+   becomes inactive with POSITIVE health, so the invariant here is
+     rinv s  :=  ginv (zh s) /\ every health in [0, 1]       zh = forget the health of inactive agents
+   i.e. the C03 invariant with `active = (health > 0)` weakened to `health = 0 -> inactive`
+   (C03_reach_rinv_readable) -- the property's general clause; the equivalence is claimed "under the
+   built-in components alone".  Every grid operation of the component models commutes with zh, which
+   reduces the preservation of rinv to C03_inv_move / C03_inv_attack.
+     arrival cf g g'  :=  a runner that is active on the target's cell in g' was so, on the same cell, in g
+     clear cf g       :=  no active runner stands on the target's cell;   rclear = rinv /\ clear
+     target_ok cf     :=  the agent listed at rc_target is the TargetAgent
+   The step with the repair of findings/C02-reach-dead-runner is the model; the tree as found is
+   rs_step_prefix / reach_sim_prefix (C03_reach_dead_runner_prefix_refuted).
+   ===================================================================================================== *)
+From Abm Require Import Grid.ReachSim Proofs.ReachSim_proofs.
+From Abm Require Grid.Done.
+
+(* ReachTheTargetSim.step keeps the relaxed invariant: every action dictionary (any keys, any offsets,
+   any attack arrays, duplicates, dead or finished agents, barriers), every oracle content *)
+Theorem C03_reach_step_rinv : forall cf st acts,
+  rinv (bs_grid st) -> rinv (bs_grid (rs_step cf st acts)).
+Proof. exact rs_step_rinv. Qed.
+Print Assumptions C03_reach_step_rinv.
+
+(* the relaxed invariant in the property's words: cells hold exactly the active agents positioned
+   there, inside the grid, no illegal overlap; health in [0,1], zero health -> inactive, active ->
+   positive health, ammunition, orientation *)
+Theorem C03_reach_rinv_readable : forall s, rinv s ->
+  ov_sym (g_ov s) /\
+  (forall p i, In i (cell_get (g_cells s) p) ->
+     exists a, agent s i = Some a /\ a_active a = true /\ a_pos a = Some p) /\
+  (forall p, NoDup (cell_get (g_cells s) p)) /\
+  (forall i a p, agent s i = Some a -> a_active a = true -> a_pos a = Some p ->
+     In i (cell_get (g_cells s) p) /\ inside s p = true) /\
+  (forall p i j, In i (cell_get (g_cells s) p) -> In j (cell_get (g_cells s) p) -> i <> j ->
+     ov_allowed (g_ov s) (enc_of s i) (enc_of s j) = true) /\
+  (forall i a, agent s i = Some a ->
+     0 <= a_health a <= HD /\ (a_health a = 0 -> a_active a = false) /\
+     (a_active a = true -> 0 < a_health a) /\
+     (forall m, a_ammo a = Some m -> 0 <= m) /\ (forall o, a_orient a = Some o -> 1 <= o <= 4)).
+Proof. exact rinv_readable. Qed.
+Print Assumptions C03_reach_rinv_readable.
+
+(* the executable form used by the checker answers 0 on every state with rinv and every active agent
+   placed *)
+Theorem C03_reach_rinvb_complete : forall s, rinv s -> all_placed s -> rinvb s = 0.
+Proof. exact rinvb_complete. Qed.
+Print Assumptions C03_reach_rinvb_complete.
+
+(* get_obs / get_reward, in any number and order, leave the grid and the start-state stream alone *)
+Theorem C03_reach_getters_pure : forall cf s s',
+  greach (reach_sim cf) s s' -> bs_grid s' = bs_grid s /\ bs_starts s' = bs_starts s.
+Proof. exact r_greach_frame. Qed.
+Print Assumptions C03_reach_getters_pure.
+
+Theorem C03_reach_done_stable : forall cf, done_stable (reach_sim cf).
+Proof. exact reach_done_stable. Qed.
+Print Assumptions C03_reach_done_stable.
+
+(* read-and-reset rewards: a read returns the accrued amount, leaves zero, touches nobody else *)
+Theorem C03_reach_reward_read_once : forall cf st i x,
+  is_learning cf i = true -> nth_error (bs_rew st) i = Some x ->
+  fst (rs_reward cf st i) = x /\
+  nth_error (bs_rew (snd (rs_reward cf st i))) i = Some 0 /\
+  (forall j, j <> i -> nth_error (bs_rew (snd (rs_reward cf st i))) j = nth_error (bs_rew st) j) /\
+  bs_bad (snd (rs_reward cf st i)) = bs_bad st.
+Proof. exact rs_reward_read_once. Qed.
+Print Assumptions C03_reach_reward_read_once.
+
+(* the invariant holds in every simulation state any manager (all-step, turn-based, dynamic order, the
+   pre-repair turn manager) reaches by ANY call list, in or out of protocol *)
+Theorem C03_reach_rinv_reachable : forall cf k s0 cs,
+  rinv (bs_grid s0) -> Forall rinv (bs_starts s0) ->
+  rinv (bs_grid (m_sim (snd (run (reach_sim cf) k (init s0) cs)))) /\
+  forall e, In e (trace (reach_sim cf) k (init s0) Fresh cs) ->
+    rinv (bs_grid (m_sim (te_pre e))) /\ rinv (bs_grid (m_sim (te_post e))).
+Proof. exact reach_rinv_reachable. Qed.
+Print Assumptions C03_reach_rinv_reachable.
+
+(* across a step no runner arrives on the target's cell and stays active: every action list *)
+Theorem C03_reach_step_no_arrival : forall cf st acts,
+  rinv (bs_grid st) -> is_runner cf (rc_target cf) = false ->
+  arrival cf (bs_grid st) (bs_grid (rs_step cf st acts)).
+Proof. exact rs_step_arrival. Qed.
+Print Assumptions C03_reach_step_no_arrival.
+
+(* hence, when no start state puts an active runner on the target's cell, none stands there in any
+   state any manager reaches by any call list *)
+Theorem C03_reach_clear_reachable : forall cf k s0 cs,
+  is_runner cf (rc_target cf) = false ->
+  rclear cf (bs_grid s0) -> Forall (rclear cf) (bs_starts s0) ->
+  rclear cf (bs_grid (m_sim (snd (run (reach_sim cf) k (init s0) cs)))) /\
+  forall e, In e (trace (reach_sim cf) k (init s0) Fresh cs) ->
+    rclear cf (bs_grid (m_sim (te_pre e))) /\ rclear cf (bs_grid (m_sim (te_post e))).
+Proof. exact reach_rclear_reachable. Qed.
+Print Assumptions C03_reach_clear_reachable.
+
+(* C01/C07 along in-protocol histories of the reach-the-target simulation; the barriers (not learning)
+   are in done_agents from the first reset on *)
+Theorem C03_reach_invariants_all : forall cf s0 cs,
+  rinv (bs_grid s0) -> Forall rinv (bs_starts s0) ->
+  in_protocol (trace (reach_sim cf) MAll (init s0) Fresh cs) ->
+  forall e, In e (trace (reach_sim cf) MAll (init s0) Fresh cs) ->
+    (te_ph e <> Fresh -> incl (nonlearning (reach_sim cf)) (m_done (te_pre e))) /\
+    rinv (bs_grid (m_sim (te_pre e))) /\ rinv (bs_grid (m_sim (te_post e))) /\
+    do_call (reach_sim cf) MAll (te_pre e) (te_call e) = (te_resp e, te_post e) /\
+    NoDup (ep_dones (trace (reach_sim cf) MAll (init s0) Fresh cs) []).
+Proof. exact reach_invariants_all. Qed.
+Print Assumptions C03_reach_invariants_all.
+
+Theorem C03_reach_invariants_turn : forall cf s0 cs,
+  rinv (bs_grid s0) -> Forall rinv (bs_starts s0) ->
+  in_protocol (trace (reach_sim cf) MTurn (init s0) Fresh cs) ->
+  forall e, In e (trace (reach_sim cf) MTurn (init s0) Fresh cs) ->
+    (te_ph e = Live -> tinv (reach_sim cf) (te_pre e)) /\
+    rinv (bs_grid (m_sim (te_pre e))) /\ rinv (bs_grid (m_sim (te_post e))) /\
+    do_call (reach_sim cf) MTurn (te_pre e) (te_call e) = (te_resp e, te_post e).
+Proof. exact reach_invariants_turn. Qed.
+Print Assumptions C03_reach_invariants_turn.
+
+Theorem C03_reach_history_steps_turn : forall cf s0 cs,
+  in_protocol (trace (reach_sim cf) MTurn (init s0) Fresh cs) ->
+  forall e acts sh, In e (trace (reach_sim cf) MTurn (init s0) Fresh cs) -> te_call e = CStep acts sh ->
+    match te_resp e with
+    | ROut o =>
+        wfo o /\ NoDup (keys o) /\ (forall a, In a (keys o) -> ~ In a (m_done (te_pre e))) /\
+        ~ submits_done (m_done (te_pre e)) acts /\ incl (m_done (te_pre e)) (m_done (te_post e)) /\
+        greach (reach_sim cf) (rs_step cf (m_sim (te_pre e)) acts) (m_sim (te_post e)) /\
+        o_all o = rs_all cf (rs_step cf (m_sim (te_pre e)) acts)
+                  || all_in (reach_sim cf) (m_done (te_post e)) /\
+        (o_all o = false -> forall a, In (a, true) (o_done o) -> In a (m_done (te_post e)))
+    | RObs _ => False
+    | _ => te_post e = te_pre e
+    end.
+Proof. exact reach_steps_turn. Qed.
+Print Assumptions C03_reach_history_steps_turn.
+
+Theorem C03_reach_done_at_most_once_turn : forall cf s0 cs,
+  in_protocol (trace (reach_sim cf) MTurn (init s0) Fresh cs) ->
+  NoDup (ep_dones (trace (reach_sim cf) MTurn (init s0) Fresh cs) []).
+Proof. exact reach_done_once_turn. Qed.
+Print Assumptions C03_reach_done_at_most_once_turn.
+
+(* manager o simulation: the done flag a manager reports for a runner is `not active, or on the
+   target's cell` in the grid the call leaves behind; in a grid with rclear a reported-done runner is
+   inactive and stands in no cell *)
+Theorem C03_reach_done_entries_all : forall cf m acts sh o m',
+  all_step (reach_sim cf) m acts sh = (ROut o, m') ->
+  forall a b rec t, In (a, b) (o_done o) -> is_runner cf a = true -> a <> rc_target cf ->
+    agent (bs_grid (m_sim m')) a = Some rec -> agent (bs_grid (m_sim m')) (rc_target cf) = Some t ->
+    b = negb (a_active rec) || Done.pos_eqb (a_pos rec) (a_pos t) /\
+    (b = true -> rclear cf (bs_grid (m_sim m')) ->
+     a_active rec = false /\ forall p, ~ In a (cell_get (g_cells (bs_grid (m_sim m'))) p)).
+Proof. exact reach_all_done_entries. Qed.
+Print Assumptions C03_reach_done_entries_all.
+
+Theorem C03_reach_done_entries_turn : forall cf m acts o m',
+  tinv (reach_sim cf) m -> turn_step (reach_sim cf) m acts = (ROut o, m') ->
+  rs_all cf (rs_step cf (m_sim m) acts) = false ->
+  forall a b rec t, In (a, b) (o_done o) -> is_runner cf a = true -> a <> rc_target cf ->
+    agent (bs_grid (m_sim m')) a = Some rec -> agent (bs_grid (m_sim m')) (rc_target cf) = Some t ->
+    b = negb (a_active rec) || Done.pos_eqb (a_pos rec) (a_pos t) /\
+    (b = true -> rclear cf (bs_grid (m_sim m')) ->
+     a_active rec = false /\ forall p, ~ In a (cell_get (g_cells (bs_grid (m_sim m'))) p)).
+Proof. exact reach_turn_done_entries. Qed.
+Print Assumptions C03_reach_done_entries_turn.
+
+(* C16 over the reach-the-target simulation: episode generation never acts for a finished agent *)
+Theorem C03_reach_trainer_never_fails :
+  forall PS cf pmap (pol_act : PS -> nat -> list (list Z) -> ract * PS) pol_reset shuf h k m ps,
+  target_ok cf -> k = MAll \/ k = MTurn ->
+  er_status (generate_episode (reach_sim cf) pmap pol_act pol_reset shuf h k m ps) = EOk /\
+  exists obs, er_reset (generate_episode (reach_sim cf) pmap pol_act pol_reset shuf h k m ps) = RObs obs.
+Proof. exact reach_trainer_never_fails. Qed.
+Print Assumptions C03_reach_trainer_never_fails.
+
+(* C08_episode_indistinguishable over the reach-the-target simulation: after reset the outputs of
+   every later call list do not depend on the manager's past *)
+Theorem C03_reach_episode_indistinguishable : forall cf k m1 m2 cs,
+  target_ok cf -> k <> MTurnPrefix ->
+  rs_reset cf (m_sim m1) = rs_reset cf (m_sim m2) ->
+  fst (run (reach_sim cf) k m1 (CReset :: cs)) = fst (run (reach_sim cf) k m2 (CReset :: cs)).
+Proof. exact reach_episode_indistinguishable. Qed.
+Print Assumptions C03_reach_episode_indistinguishable.
+
+(* the recorded run is the managers' run *)
+Theorem C03_reach_run_snap_is_run : forall Sm k cs m,
+  map fst (fst (rrun_snap Sm k m cs)) = fst (run Sm k m cs) /\
+  snd (rrun_snap Sm k m cs) = snd (run Sm k m cs).
+Proof. exact rrun_snap_run. Qed.
+Print Assumptions C03_reach_run_snap_is_run.
+
+(* the extracted checker of the component (rinvb on every recorded snapshot, no arrival across a step,
+   flag clear) answers 1 on the extracted model's own output, for every decodable input whose start
+   states are legal and on which the recorded draws were admissible *)
+Theorem C03_reach_chk_model : forall xin i,
+  dec_reach xin = Some i -> NoDup (map fst (ri_ov i)) ->
+  is_runner (ri_cfg i) (rc_target (ri_cfg i)) = false ->
+  Forall (fun g => rinv g /\ all_placed g) (bs_starts (ri_init i)) ->
+  bs_bad (m_sim (snd (reach_records reach_sim i))) = false ->
+  run_chk_reach (L [xin; run_reach xin]) = A 1.
+Proof. exact run_chk_reach_model. Qed.
+Print Assumptions C03_reach_chk_model.
+
+(* the tree as found (findings/C02-reach-dead-runner): the second loop of ReachTheTargetSim.step tests
+   "reached the target" also for a runner that is no longer active.  A runner that stands on the
+   target's cell after reset and is shot dead by the target in the first loop of the first step is
+   "rewarded" and removed from the grid a second time: Grid.remove raises KeyError.  The model of that
+   code flags the step (clause 308 of the component's checker); the repaired step does not. *)
+Theorem C03_reach_dead_runner_prefix_refuted :
+  exists cf s0 acts,
+    target_ok cf /\ rs_invP (rgood 3 3 [(2, [3])]) s0 /\ bs_bad s0 = false /\
+    in_protocol (trace (reach_sim cf) MAll (init s0) Fresh [CReset; CStep acts acts]) /\
+    bs_bad (m_sim (snd (run (reach_sim_prefix cf) MAll (init s0) [CReset; CStep acts acts]))) = true /\
+    bs_bad (m_sim (snd (run (reach_sim cf) MAll (init s0) [CReset; CStep acts acts]))) = false /\
+    fst (run (reach_sim cf) MAll (init s0) [CReset; CStep acts acts]) =
+      [RObs [(0%nat, [[3]]); (1%nat, [[0; 0; 0]; [0; 2; 0]; [0; 0; 0]])];
+       ROut {| o_obs := [(0%nat, [[2]]); (1%nat, [[0; 0; 0]; [0; 2; 0]; [0; 0; 0]])];
+               o_rew := [(0%nat, -101); (1%nat, 100)]; o_done := [(0%nat, true); (1%nat, true)];
+               o_info := [(0%nat, tt); (1%nat, tt)]; o_all := true |}].
+Proof. exact dead_runner_prefix_refuted. Qed.
+Print Assumptions C03_reach_dead_runner_prefix_refuted.
+
+(* non-vacuity: legal start state (3x3: barrier, three runners, target in the middle); one all-step
+   step in which runner 1 reaches the target (+1 - 0.01, removed from the grid, inactive with health 1),
+   runner 2 is shot dead (-1 - 0.01, target +1) and runner 3 is refused by the barrier (-0.1 - 0.01) *)
+Example C03_reach_nonvacuous :
+  rs_invP (rgood 3 3 [(2, [3])]) r3_s0 /\ target_ok r3_cf /\ clear r3_cf r3_start /\
+  (let r := rrun_snap (reach_sim r3_cf) MAll (init r3_s0) [CReset; CStep r3_acts r3_acts] in
+   in_protocol (trace (reach_sim r3_cf) MAll (init r3_s0) Fresh [CReset; CStep r3_acts r3_acts]) /\
+   map fst (fst r) = r3_out /\ bs_bad (m_sim (snd r)) = false /\ m_done (snd r) = [0%nat; 1%nat; 2%nat] /\
+   map (fun rg => rinvb (snd rg)) (fst r) = [0; 0] /\
+   option_map (fun a => (a_active a, a_health a, a_pos a)) (agent (bs_grid (m_sim (snd r))) 1) =
+     Some (false, HD, Some (1, 1)) /\
+   cell_get (g_cells (bs_grid (m_sim (snd r)))) (1, 1) = [4%nat] /\
+   option_map (fun a => (a_active a, a_health a)) (agent (bs_grid (m_sim (snd r))) 2) = Some (false, 0) /\
+   cell_get (g_cells (bs_grid (m_sim (snd r)))) (2, 2) = [] /\
+   cell_get (g_cells (bs_grid (m_sim (snd r)))) (0, 1) = [3%nat]).
+Proof. exact r3_nonvacuous. Qed.
